@@ -19,7 +19,7 @@ func (it InlineTableMap) Set(ctx context.Context, scope *ReferenceScope, inlineT
 		scope.RecursiveTable = &inlineTable
 	}
 
-	view, err := selectQuery(ctx, scope, inlineTable.Query, inlineTable.IsRecursive())
+	view, err := selectQuery(ctx, scope, inlineTable.Query, false, inlineTable.IsRecursive())
 	scope.CloseCurrentNode()
 	if err != nil {
 		return err
